@@ -1391,6 +1391,11 @@ const char* rtosc_skip_next_printed_arg(const char* src, int* skipped,
                     if(!endsrc)
                         break;
 
+                    // types must be equal (in particular, rhs is numeric and
+                    // can be scanned without a string buffer)
+                    if(lhstype != *rhstype)
+                        break;
+
                     rtosc_scan_arg_val(rhssrc, &rhsarg, 1, NULL, &zero, 0, 0);
                 }
 
